@@ -93,26 +93,3 @@ pub fn sample_cases<S: proptest::strategy::Strategy>(ctx: &Ctx, sub: &str, strat
     (0..n).filter_map(|_| strat.new_tree(&mut runner).ok().map(|t| t.current())).collect()
 }
 
-/// fuzz entry: one generated case of the property's main strategy per input. Panics on a violation.
-pub fn fuzz(id: &str, data: &[u8]) {
-    let r = match id {
-        "C02" => fuzz_case(id, "plan", data, &c02::fuzz_strategy(), c02::eval),
-        "C04" => fuzz_case(id, "presentations", data, &c04::fuzz_strategy(), c04::eval),
-        "C05" => fuzz_case(id, "setsketch-history", data, &c05::fuzz_strategy(), c05::eval),
-        "C09" => fuzz_case(id, "history", data, &c09::fuzz_strategy(), c09::eval),
-        "C11" => fuzz_case(id, "selection", data, &c11::fuzz_strategy(), c11::eval),
-        "C13" => fuzz_case(id, "unweighted", data, &c13::fuzz_strategy(), c13::eval),
-        "C14" => fuzz_case(id, "counting", data, &c14::fuzz_strategy(), c14::eval),
-        "C15" => fuzz_case(id, "history", data, &c15::fuzz_strategy(), c15::eval),
-        "C17" => fuzz_case(id, "exact", data, &c17::fuzz_strategy(), c17::eval),
-        "C18" => fuzz_case(id, "values", data, &c18::fuzz_strategy(), c18::eval_inprocess),
-        "C19" => fuzz_case(id, "h64", data, &c19::fuzz_strategy(), c19::eval),
-        "C20" => fuzz_case(id, "roundtrip-and-prefixes", data, &c20::fuzz_strategy(), c20::eval),
-        _ => Ok(()),
-    };
-    if let Err(msg) = r {
-        panic!("VIOLATION-IN-FUZZ-TARGET property={} {}", id, msg);
-    }
-}
-
-pub const FUZZ_TARGETS: [&str; 12] = ["C02", "C04", "C05", "C09", "C11", "C13", "C14", "C15", "C17", "C18", "C19", "C20"];
